@@ -26,7 +26,9 @@ except Exception:
     pass
 rx_obj = rx_obj or re.compile(pattern)
 suffix = None
-for s in ("!", "\x00!", "\n\n", " !"):
+import itertools
+cands = ["!", "\x00!", "\n\n", " !"] + ["".join(t) for n in (1, 2) for t in itertools.product(%(reps)r, repeat=n)]
+for s in cands:
     if rx_obj.match(prefix + pump * 3 + s) is None:
         suffix = s; break
 if suffix is None: NOT_REPRODUCED("no failing suffix found")
@@ -147,7 +149,7 @@ def check(run):
                 ob.refuted("exponentially ambiguous: prefix %r + pump %r * n + non-matching suffix (pattern %r at %s)"
                            % (w["prefix"], w["pump"], pat, where), clause="noEDA",
                            replay_script=EDA_REPLAY % {"pattern": pat, "prefix": w["prefix"], "pump": w["pump"], "where": where,
-                                                       "ns": ns, "step": 2})
+                                                       "ns": ns, "step": 2, "reps": _reps(pat)})
                 continue
         with run.obligation("re.degree[%s]" % short, "rx", fns) as ob:
             d, pairs = rx.degree(pat)
@@ -163,6 +165,11 @@ def check(run):
     run.assume("A7: a backtracking matcher on a pNFA without exponential ambiguity and with ambiguity degree d takes O(n^(d+1)) steps; "
                "the whitelisted str/dict/list builtins are O(n)")
     run.note("wall-clock time itself is not proved; the obligations bound the ambiguity of every pattern and the loop structure of the parsers")
+
+
+def _reps(pat):
+    A = rx.build(pat, fullmatch=True)
+    return [chr(min(m)) if min(m) < 128 else "\u0100" for m in rx.minterms(rx.charsets(A))][:16]
 
 
 def _short(pat):
